@@ -1,5 +1,5 @@
 SPECIFICATION RSpec
 CONSTANTS Keys = {1, 2}
- MaxUse = 3
+ MaxUse = 2
 INVARIANTS PresentIff
 CHECK_DEADLOCK FALSE
